@@ -817,7 +817,10 @@ def check_basis_object(out, sub, kind, f, info, p, rng, nsamples=6):
                         num_un = float(num_fn(un, x, h))
                         if abs(lib - num_un) <= 1e-5 * max(abs(lib), abs(num_un), fm / w ** order):
                             cause = "/is-derivative-of-unmodified-polynomial"
-                    out.bad("%s/derivative%d/%s%s" % (sub, order, kind, cause),
+                    sig = "%s/derivative%d/%s%s" % (sub, order, kind, cause)
+                    if any(sg == sig for sg, _ in out.violations):
+                        break                                    # one report per cause and case
+                    out.bad(sig,
                             "%s p=%d knots=%s index=%s: get_%s_derivative(%r) = %r, central difference of __call__ = %r"
                             % (kind, p, [round(t, 6) for t in knots][:12], getattr(f, "index", None),
                                "first" if order == 1 else "second", x, lib, num))
@@ -1272,13 +1275,13 @@ def _selftest_library():
 
 SUBS = [
     Sub("roundtrip_local", roundtrip_local_strategy, run_roundtrip_local, dict(quick=1600, thorough=20000),
-        budget_s=dict(quick=11, thorough=130), fixed_cases=local_fixed),
+        budget_s=dict(quick=9, thorough=130), fixed_cases=local_fixed),
     Sub("roundtrip_global", roundtrip_global_strategy, run_roundtrip_global, dict(quick=2400, thorough=30000),
-        budget_s=dict(quick=12, thorough=160), fixed_cases=roundtrip_fixed),
+        budget_s=dict(quick=10, thorough=160), fixed_cases=roundtrip_fixed),
     Sub("polynomials", polynomials_strategy, run_polynomials, dict(quick=2400, thorough=30000),
-        budget_s=dict(quick=11, thorough=130)),
+        budget_s=dict(quick=9, thorough=130)),
     Sub("interpolate_grid", interpolate_grid_strategy, run_interpolate_grid, dict(quick=320, thorough=3200),
-        budget_s=dict(quick=7, thorough=40)),
+        budget_s=dict(quick=6, thorough=40)),
     Sub("basis", basis_strategy, run_basis, dict(quick=6400, thorough=80000),
-        budget_s=dict(quick=9, thorough=100)),
+        budget_s=dict(quick=7, thorough=100)),
 ]
